@@ -15,6 +15,7 @@ UNITS = {
     's_c14': dict(cpp='harness/s_session.cpp', coroutines=('T_enter0', 'T_enter1', 'T_enter2'), inline_all=True, sessions=2, cdefs=('YK_VAL_CAP=16',)),
     's_c14b': dict(cpp='harness/s_session.cpp', coroutines=('T_ele0', 'T_enter1', 'T_enter2'), inline_all=True, sessions=2, cdefs=('YK_VAL_CAP=16',)),
     's_c07': dict(cpp='harness/s_session.cpp', coroutines=('T_reader_session', 'T_remover_session', 'T_epoch', 'T_gc'), inline_all=True, sessions=2, cdefs=('YK_VAL_CAP=16', 'YK_MAX_SLEEPS=2', 'YK_NALLOC=3', 'YK_DRAIN_ROUNDS=1', 'YK_NEV=4')),
+    'k_sites': dict(cpp='harness/k_sites.cpp', cdefs=('YK_VAL_CAP=16',)),
     'k_value': dict(cpp='harness/k_value.cpp', cdefs=('YK_VAL_CAP=48',)),
 }
 
@@ -65,6 +66,15 @@ REGISTRY = {
     'C18': [
         H('k_compare', 'H_cmp_tuple_pair', 'key_tuple operator< > <= >= == != vs bytewise lexicographic reference (all pairs)', TUP),
         H('k_compare', 'H_cmp_tuple_triple', 'transitivity on all triples; min()/max() sentinels', TUP),
+        H('k_sites', 'H_site_get_child_of_1', 'interior_node::get_child_of routing vs reference order, 1 separator', TUP),
+        H('k_sites', 'H_site_get_child_of_2', 'interior_node::get_child_of routing, 2 separators', TUP),
+        H('k_sites', 'H_site_get_child_of_3', 'interior_node::get_child_of routing, 3 separators', TUP),
+        H('k_sites', 'H_site_interior_insert_1', 'interior_node::insert position of separator and child, 1 separator', TUP),
+        H('k_sites', 'H_site_interior_insert_2', 'interior_node::insert position, 2 separators', TUP),
+        H('k_sites', 'H_site_interior_insert_3', 'interior_node::insert position, 3 separators', TUP),
+        H('k_sites', 'H_site_leaf_1', 'border_node::get_lv_of / get_lv_of_without_lock / compute_rank_if_insert, 1 entry', TUP),
+        H('k_sites', 'H_site_leaf_2', 'leaf lookup and rank, 2 entries (scrambled slots)', TUP),
+        H('k_sites', 'H_site_leaf_3', 'leaf lookup and rank, 3 entries', TUP),
         H('k_compare', 'H_cmp_tuple_from_view', 'key_tuple(string_view): slice/len of the first layer, keys of 0..10 bytes', 'all byte strings of length 0..10'),
     ],
     'C17': [
